@@ -7,10 +7,15 @@ use serde_json::json;
 
 pub fn cfg(ctx: &Ctx) -> FamCfg {
     if ctx.quick() {
-        FamCfg { n: 3, ring_k: 4, ls_k: 3, mpt_m: 2, mls: 3, mpg: true, pgh: true, gc: true, stride: 1, mls_stride: 23, mpg_stride: 14, mls3_stride: 3 }
+        FamCfg { n: 3, ring_k: 4, ls_k: 3, mpt_m: 2, mls: 3, mpg: true, pgh: true, gc: true, stride: 1, mls_stride: 40, mpg_stride: 20, mls3_stride: 6 }
     } else {
         FamCfg { n: 3, ring_k: 8, ls_k: 4, mpt_m: 3, mls: 3, mpg: true, pgh: true, gc: true, stride: 1, mls_stride: 1, mpg_stride: 1, mls3_stride: 1 }
     }
+}
+
+/// a second, larger alphabet for the thorough tier: the 4x4 lattice (vertex on edge at thirds, longer collinear overlaps)
+pub fn cfg_g4() -> FamCfg {
+    FamCfg { n: 4, ring_k: 4, ls_k: 3, mpt_m: 2, mls: 2, mpg: false, pgh: false, gc: false, stride: 2, mls_stride: 12, mpg_stride: 40, mls3_stride: 1 }
 }
 
 pub fn run(mut run: Run) -> i32 {
@@ -56,6 +61,97 @@ pub fn run(mut run: Run) -> i32 {
             }
         }
     });
+    if !run.ctx.quick() {
+        let g4 = families(&cfg_g4());
+        let n4 = g4.len();
+        run.extra.insert("g4_shapes".into(), json!(n4));
+        run.stage("pairs-G4", n4 * n4, |idx, acc| {
+            let (a, b) = (&g4[idx / n4], &g4[idx % n4]);
+            let truth = mstr(&de9im(&a.ag, &b.ag));
+            acc.class(format!("{}x{}:{}", a.ty(), b.ty(), truth));
+            acc.evals += 1;
+            let got = guard(|| relate_concrete(&a.g, &b.g)).unwrap_or_else(|e| format!("panic:{}", e));
+            if got != truth {
+                acc.viol(format!("relate[concrete] {}x{} true={} got={}", a.ty(), b.ty(), truth, got), idx, || {
+                    json!({"a": a.wkt(), "b": b.wkt(), "true": truth, "got": got})
+                });
+            }
+        });
+    }
+    // near-collinear fans: two edges leaving a common node in almost the same direction (non-lattice, ill-conditioned);
+    // the true matrix follows from exact big-integer orientation of the three points alone
+    {
+        use crate::bigf::{self, next_up, F2};
+        use geo::{Coord, Geometry, Line, LineString, Polygon};
+        // expected matrices taken from the exact kernel on a lattice analogue of each configuration
+        let tri = AG::Polys(vec![Poly { shell: vec![(0, 0), (4, 0), (0, 4)], holes: vec![] }]);
+        let seg_in = AG::Lines(vec![vec![(0, 0), (1, 1)]]);
+        let seg_out = AG::Lines(vec![vec![(0, 0), (1, -1)]]);
+        let l1 = AG::Lines(vec![vec![(0, 0), (4, 0)]]);
+        let l2 = AG::Lines(vec![vec![(0, 0), (3, 1)]]);
+        let exp_ll = mstr(&de9im(&l1, &l2)); // two segments sharing exactly one endpoint
+        let exp_pl_in = mstr(&de9im(&tri, &seg_in));
+        let exp_pl_out = mstr(&de9im(&tri, &seg_out));
+        struct Fan {
+            name: &'static str,
+            p0: F2,
+            p1: F2,
+            apex: F2, // third triangle corner, far to the left of p0->p1
+            centre: F2,
+            int_step: bool,
+        }
+        let fans = vec![
+            Fan { name: "decimal (10,1)", p0: (0.0, 0.0), p1: (10.0, 1.0), apex: (-1.0, 10.0), centre: (5.0, 0.5), int_step: false },
+            Fan { name: "decimal (9,7)", p0: (0.0, 0.0), p1: (9.0, 7.0), apex: (-7.0, 9.0), centre: (0.9, 0.7), int_step: false },
+            Fan { name: "fibonacci 1e8", p0: (0.0, 0.0), p1: (102334155.0, 63245986.0), apex: (-63245986.0, 102334155.0), centre: (63245986.0, 39088169.0), int_step: true },
+            Fan { name: "offset 1e8", p0: (100000000.0, 100000000.0), p1: (100000010.0, 100000001.0), apex: (99999999.0, 100000010.0), centre: (100000005.0, 100000000.5), int_step: false },
+            Fan { name: "steep negative", p0: (-3.0, 7.0), p1: (-2.9, -23.0), apex: (30.0, 7.1), centre: (-2.95, -8.0), int_step: false },
+        ];
+        let w: i64 = run.ctx.pick(32, 128);
+        let ww = (w * w) as usize;
+        run.stage("near-collinear-fans", fans.len() * ww, |idx, acc| {
+            let f = &fans[idx / ww];
+            let k = (idx % ww) as i64;
+            let (i, j) = (k / w - w / 2, k % w - w / 2);
+            let p2: F2 = if f.int_step { (f.centre.0 + i as f64, f.centre.1 + j as f64) } else { (next_up(f.centre.0, i), next_up(f.centre.1, j)) };
+            let o = bigf::orient(f.p0, f.p1, p2);
+            if o == 0 {
+                acc.count("exactly collinear window points (skipped)", 1);
+                return;
+            }
+            let co = |p: F2| Coord { x: p.0, y: p.1 };
+            let (a_line, b_line) = (Geometry::Line(Line::new(co(f.p0), co(f.p1))), Geometry::Line(Line::new(co(f.p0), co(p2))));
+            let a_ls = Geometry::LineString(LineString::new(vec![co(f.p1), co(f.p0)]));
+            let b_ls = Geometry::LineString(LineString::new(vec![co(f.p0), co(p2)]));
+            let poly = Geometry::Polygon(Polygon::new(LineString::new(vec![co(f.p0), co(f.p1), co(f.apex), co(f.p0)]), vec![]));
+            // the apex must be strictly left of p0->p1 for the analogue to apply
+            debug_assert!(bigf::orient(f.p0, f.p1, f.apex) > 0);
+            let inside = bigf::point_in_ring(&[f.p0, f.p1, f.apex], p2);
+            acc.class(format!("fan {} side{} inside{}", f.name, o, inside));
+            acc.sample(idx, || json!({"fan": f.name, "p0": [f.p0.0, f.p0.1], "p1": [f.p1.0, f.p1.1], "p2": [p2.0, p2.1], "exact_orientation": o}));
+            let mut cases: Vec<(&str, &Geometry<f64>, &Geometry<f64>, String)> = vec![
+                ("Line x Line", &a_line, &b_line, exp_ll.clone()),
+                ("LineString x LineString", &a_ls, &b_ls, exp_ll.clone()),
+                ("Line x LineString", &b_line, &a_ls, exp_ll.clone()),
+            ];
+            if inside == 2 {
+                cases.push(("Polygon x Line", &poly, &b_line, exp_pl_in.clone()));
+                cases.push(("Line x Polygon", &b_line, &poly, mstr(&transpose(&de9im(&tri, &seg_in)))));
+            } else if inside == 0 && o < 0 {
+                cases.push(("Polygon x Line", &poly, &b_line, exp_pl_out.clone()));
+                cases.push(("LineString x Polygon", &b_ls, &poly, mstr(&transpose(&de9im(&tri, &seg_out)))));
+            }
+            for (what, a, b, want) in cases {
+                acc.evals += 1;
+                let got = guard(|| relate_concrete(a, b)).unwrap_or_else(|e| format!("panic:{}", e));
+                if got != want {
+                    acc.viol(format!("relate on a near-collinear fan: {} true={} got={} [{}]", what, want, got, f.name), idx, || {
+                        json!({"a": format!("{:?}", a), "b": format!("{:?}", b), "true": want, "got": got, "exact_orientation_of_p2": o})
+                    });
+                }
+            }
+        });
+    }
     // variant pass: the same point sets written differently
     let vstride = run.ctx.pick(9, 2);
     let base: Vec<&Shape> = shapes
